@@ -4,13 +4,15 @@ package message
 //vsym:entry H15_legacy_roundtrip
 //vsym:entry H15_legacy_total
 //vsym:entry H15_legacy_booleans
+//vsym:entry H15_wrong_type_falls_back
 //vsym:entry H15_json
 //vsym:model encoding/json.Marshal m15Marshal
 //vsym:model encoding/json.Unmarshal m15Unmarshal
 //vsym:replay same-harness
-//vsym:expect-cover C15.legacy.roundtrip C15.legacy.boolean-true C15.legacy.boolean-false C15.legacy.with-touchless-sudo C15.legacy.total-ok C15.legacy.total-error C15.json.roundtrip C15.json.missing-field C15.json.null C15.marshal.refused
+//vsym:expect-cover C15.legacy.roundtrip C15.wrong-type C15.legacy.boolean-true C15.legacy.boolean-false C15.legacy.with-touchless-sudo C15.legacy.total-ok C15.legacy.total-error C15.json.roundtrip C15.json.missing-field C15.json.null C15.marshal.refused
 //vsym:bound H15_legacy_roundtrip: interface version any int below 7; client version, user, host of 1..2 symbolic printable ASCII bytes (0x21-0x7e) without '@'; three symbolic booleans; touchless-sudo absent or present with hosts of 0..2 such bytes and time in {-99,-1,0,1,999,2^31,-2^31-1,2^40}
 //vsym:bound H15_legacy_total: arbitrary text of 0..5 (thorough 0..7) symbolic bytes, and structured texts with duplicate keys, empty values, '=' in values and stray spaces
+//vsym:bound H15_wrong_type_falls_back: a JSON object whose signatureAlgo is a string (decoding fails after the other fields were stored) and whose note value carries legacy tokens with a symbolic 1-byte user and host
 //vsym:bound H15_legacy_booleans: HardKey / Touch2SSH / IsFirefighter tokens with every Go boolean literal, ten other spellings, every 1-byte and every 4-byte printable value, before or after the req token
 //vsym:bound H15_json: interface version any int >= 7; every string field 0..1 symbolic bytes; extension map of 0..1 entries; decoder result for other input: error, null, or an arbitrary object (with or without surrounding white space)
 //vsym:assume encoding/json is modelled by its contract (Marshal records the value, Unmarshal of that text restores it; other input: error when the first byte cannot start a JSON value, else error / null / arbitrary object); strings.TrimSpace over symbolic bytes is executed from source under the stated ASCII bound
@@ -155,6 +157,10 @@ func m15Unmarshal(data []byte, v any) error {
 	case 2:
 		m15Merge(p, m15Copy(m15Obj), false)
 		return nil
+	case 3:
+		// a wrongly typed value: encoding/json stores the other fields and then reports the error
+		m15Merge(p, m15Copy(m15Obj), false)
+		return errors.New("model: json: cannot unmarshal string into Go struct field Attributes.ifVer of type int")
 	}
 	return errors.New("model: invalid JSON")
 }
@@ -290,6 +296,32 @@ func H15_legacy_booleans() {
 	vCover(!got, "C15.legacy.boolean-false")
 }
 
+// H15_wrong_type_falls_back: text that is a JSON object with a wrongly typed
+// field does not decode as a JSON attribute object; what the legacy fallback
+// returns for it is what UnmarshalLegacy returns for the same text.
+func H15_wrong_type_falls_back() {
+	m15Snap = nil
+	m15Other = 3
+	m15Obj = &Attributes{IfVer: 9, SSHClientVersion: "9.9", Username: "eve", Hostname: "evil", HardKey: true, Touch2SSH: true, CAPubKeyAlgo: 3}
+	u, h := vNondetString("user", 1), vNondetString("host", 1)
+	h15Printable(u, false)
+	h15Printable(h, false)
+	vAssume(vAnd(u[0] != '"', vAnd(u[0] != '\\', vAnd(h[0] != '"', h[0] != '\\'))))
+	text := "{\"ifVer\":9,\"sshClientVersion\":\"9.9\",\"username\":\"eve\",\"hostname\":\"evil\",\"hardKey\":true,\"touch2SSH\":true,\"caPubKeyAlgo\":3,\"signatureAlgo\":\"x\",\"note\":\" req=" + u + "@" + h + " SSHClientVersion=8.1 \"}"
+	want, werr := UnmarshalLegacy(text)
+	got, gerr := Unmarshal(text)
+	vAssert((werr == nil) == (gerr == nil), "C15.fallback-is-the-legacy-decoding-of-the-same-text")
+	if werr != nil || gerr != nil || want == nil || got == nil {
+		return
+	}
+	eq := got.IfVer == want.IfVer && vEqString(got.Username, want.Username) && vEqString(got.Hostname, want.Hostname) &&
+		vEqString(got.SSHClientVersion, want.SSHClientVersion) && got.HardKey == want.HardKey && got.Touch2SSH == want.Touch2SSH &&
+		got.CAPubKeyAlgo == want.CAPubKeyAlgo && got.SignatureAlgo == want.SignatureAlgo
+	vAssert(eq, "C15.fallback-is-the-legacy-decoding-of-the-same-text")
+	vAssert(got.IfVer != 9 && vEqString(got.Username, u) && vEqString(got.Hostname, h) && !got.HardKey && !got.Touch2SSH && got.CAPubKeyAlgo == 0, "C15.failed-json-attempt-leaves-no-trace")
+	vReach("C15.wrong-type")
+}
+
 func H15_legacy_total() {
 	var text string
 	shape := vChoose(5, "text-shape")
@@ -385,6 +417,11 @@ func H15_json() {
 				vAssert(*b.TouchlessSudo == *a.TouchlessSudo, "C15.json-roundtrip-touchless-sudo")
 			}
 			vReach("C15.json.roundtrip")
+			// the decoded message is the caller's own: a handler that fills in
+			// its touchless-sudo section changes no other message
+			if b.TouchlessSudo != nil {
+				b.TouchlessSudo.IsFirefighter, b.TouchlessSudo.Hosts, b.TouchlessSudo.Time = true, "scribbled", 7
+			}
 		}
 	}
 
